@@ -6,7 +6,7 @@ CONSTANT MinSet = 0
 CONSTANT MaxSet = 8
 CONSTANT SoundMax = 4
 CONSTANT ExhH = 0
-CONSTANT GuidedH = 20
+CONSTANT GuidedH = 4
 CONSTANT PermMax = 4
 CONSTANT DupMax = 2
 CONSTANT EmitCases = TRUE
